@@ -416,6 +416,62 @@ def run_C09(ctx):
     return out
 
 
+def direct_keys(names, h):
+    """keys of the direct-oracle failures (no model needed) a history produces"""
+    W = World(names)
+    keys = set()
+    for op in h:
+        err, val = W.apply(op)
+        if op[0] == "read" and err == "ok" and val != W.fresh_lookups()[op[1]]:
+            keys.add("stale:" + op[1])
+        for msg in c09_oracle(W, op, err):
+            keys.add("C09:" + msg.split(":")[0])
+    cur, fresh = W.current_lookups(), W.fresh_lookups()
+    for k in KEYS:
+        if cur[k] != fresh[k]:
+            keys.add("stale:" + k)
+    return keys
+
+
+def shrink(failure):
+    """greedy one-at-a-time removal of operations while the same direct-oracle failure remains"""
+    key = failure.get("key", "")
+    want = ("stale:" + key.split(":stale:")[1]) if ":stale:" in key else (key if key.startswith("C09:") and ":graph:" not in key else None)
+    if want is None or "history" not in failure:
+        return failure
+    names = failure.get("names") or default_names()
+
+    def norm(h):
+        out = []
+        for op in h:
+            op = tuple(op)
+            if op[0] in ("nodes", "path"):
+                op = (op[0], list(op[1])) + tuple(op[2:])
+            if op[0] == "links":
+                op = ("links", [tuple(t) for t in op[1]])
+            out.append(op)
+        return out
+    h = norm(failure["history"])
+    try:
+        if want not in direct_keys(names, h):
+            return failure
+        changed = True
+        while changed:
+            changed = False
+            for i in range(len(h)):
+                h2 = h[:i] + h[i + 1:]
+                if h2 and want in direct_keys(names, h2):
+                    h = h2
+                    changed = True
+                    break
+    except Exception:
+        return failure
+    if len(h) < len(failure["history"]):
+        failure = dict(failure, history=h, shrunk_from=len(failure["history"]),
+                       what=failure["what"] + f"  [minimised: the same failure after {short(h)}]")
+    return failure
+
+
 def replay(failure):
     import json
     print(json.dumps(failure, indent=1, default=str))
